@@ -20,6 +20,11 @@ _add("C05", "bounded symbolic verification: all words over {a,b,A,B} up to lengt
 _add("C16", "bounded symbolic verification of chart conversions (real and complex, dimensions 1..3 / 1..5), chart membership path analysis, affine maps, subspace intersection with a null-space stub")
 _add("C17", "bounded symbolic verification: homomorphism / identity / determinant / invariant-form identities for sl2_irrep (n<=6), sl2_to_so21, gln/sln adjoint (n<=3), slc_to_slr, sl2c_to_so31, block_include and the lie.hom wrappers, single matrices and stacks")
 _add("C12", "bounded symbolic verification of invariance under independent per-unit homogeneous rescalings (symbolic non-zero factors of either sign): model coordinates, distances, segment ideal endpoints, circle centre/radius, tangent direction against an independent reference, images under transformations, polygon edges, origin_to targets; n<=2 (quick) / n<=3 (thorough).  The number-packaging half of C12 is outside this technique (stated in the evidence)")
+_CT = "CrossHair (z3-backed symbolic execution of the real Python automata code) per configuration slice, 16 processes; counterexamples replayed in plain Python"
+_CN = "tables are enumerated configurations; CrossHair decides over the symbolic arguments only and 'Confirmed over all paths' is claimed only when it reports exhaustion; reference models in harness/chbodies.py are trusted"
+_add("C06", "bounded symbolic verification (CrossHair) of automaton_accepted / freely_reduced_elements against a reference path enumeration, for all 2x2 tables and symbolic length / options / states", tech=_CT, note=_CN, eng="crosshair")
+_add("C09", "bounded symbolic verification (CrossHair) of view coherence after construction by 4 routes and histories of depth <=2 (quick) / <=3 (thorough) with a symbolic last operation, the no-aliasing representation invariant, and kbmag record loading", tech=_CT, note=_CN, eng="crosshair")
+_add("C10", "bounded symbolic verification (CrossHair) of walk / enumeration / k-multiple / relabelling / recurrent / shortest-path operations against set-based reference models for all 2x2 tables (3x2, 2x3 samples in thorough) and symbolic words, starts, k, maps, roots", tech=_CT, note=_CN, eng="crosshair")
 NA = {}
 def main():
     checks = []
